@@ -34,6 +34,7 @@ RULES = {
              'Watchers.map (unwatch leaves an empty list)',
     'C13.j': 'the Arbiter arm of the resolver builds no reply other than Error (no shortcut acknowledges a conflicting write)',
     'C13.e': 'Resolve arm: the primary applies, any other role forwards (both credential branches)',
+    'C13.i': 'the conflict-record lister matches what the record writer writes: with the key left empty (the "list all" call of the arbiter registration) the pattern text occurs in the constant head of every record key; with a key, the text after the key hole is a prefix of the writer template\'s text after its key hole',
 }
 
 
